@@ -11,6 +11,7 @@ import (
 	"io"
 	"reflect"
 	"sort"
+	"time"
 
 	"github.com/ossrs/go-oryx-lib/flv"
 
@@ -27,6 +28,7 @@ var (
 	alphaSizes = []int{0, 1, 255, 256, 65535, 65536}
 	smallSizes = []int{0, 1, 255, 256}
 	thinTS     = []uint32{1, 0x1000000, 0xFFFFFFFF}
+	thinTypes  = []uint8{8, 9, 0xFF}
 	maxBody    = 1<<24 - 1
 )
 
@@ -37,15 +39,14 @@ type tagSpec struct {
 }
 
 type caseT struct {
-	Family string    `json:"family"`
-	Video  bool      `json:"has_video"`
-	Audio  bool      `json:"has_audio"`
-	Tags   []tagSpec `json:"tags"`
-	Window int       `json:"split_window"` // files longer than allSplitsBelow are split only within Window bytes of a field boundary
-	Split  int       `json:"failing_split,omitempty"`
+	Family   string    `json:"family"`
+	Video    bool      `json:"has_video"`
+	Audio    bool      `json:"has_audio"`
+	Tags     []tagSpec `json:"tags"`
+	Window   int       `json:"split_window"`     // files longer than AllBelow are split only within Window bytes of a field boundary
+	AllBelow int       `json:"all_splits_up_to"` // files up to this length are split at every offset
+	Split    int       `json:"failing_split,omitempty"`
 }
-
-const allSplitsBelow = 2048
 
 func (cs *caseT) id() string {
 	s := fmt.Sprintf("%s/%v%v", cs.Family, cs.Video, cs.Audio)
@@ -284,9 +285,9 @@ func demuxCheck(r io.Reader, cs *caseT, bodies [][]byte) (field, detail string, 
 // splitOffsets: every interior offset for short files; for long ones every
 // offset within w bytes of a field boundary (header, PreviousTagSize, tag
 // header, body start, body end).
-func splitOffsets(sizes []int, w int) []int {
+func splitOffsets(sizes []int, w, allBelow int) []int {
 	total := flvref.FileLen(sizes)
-	if total <= allSplitsBelow || w <= 0 {
+	if total <= allBelow || w <= 0 {
 		r := make([]int, 0, total)
 		for k := 1; k < total; k++ {
 			r = append(r, k)
@@ -377,24 +378,7 @@ func checkCase(c *hl.Ctx, cs *caseT) {
 				off++
 			}
 			fld := flvref.FieldAt(sizes, off)
-			extra := ""
-			switch fld {
-			case "timestamp", "timestamp-extended":
-				for _, t := range cs.Tags {
-					if t.TS >= 1<<24 {
-						extra = "/ts>=2^24"
-					}
-				}
-			case "data-size", "prev-tag-size":
-				mx := 0
-				for _, s := range sizes {
-					if s > mx {
-						mx = s
-					}
-				}
-				extra = "/" + sizeClass(mx)
-			}
-			c.Violation("layout/bytes/"+fld+extra, fmt.Sprintf("muxer output differs from the FLV v1 layout for %s: %d bytes written, layout has %d; first difference at offset %d (field %s): written %s, layout %s",
+			c.Violation("layout/bytes/"+fld, fmt.Sprintf("muxer output differs from the FLV v1 layout for %s: %d bytes written, layout has %d; first difference at offset %d (field %s): written %s, layout %s",
 				desc, len(lib), len(want), off, fld, hexAround(lib, off), hexAround(want, off)), cs)
 		}
 		// oracle 2b: the independent parser accepts what the muxer wrote and finds the same tags
@@ -465,21 +449,29 @@ func checkCase(c *hl.Ctx, cs *caseT) {
 			c.Violation(key, fmt.Sprintf("file %s for %s, read back whole: %s. File: %s", who, desc, det, hl.Hex(f.data)), cs)
 			continue // segmentations of a file that is misread whole add nothing
 		}
+		// one key per reader kind (a desynchronised demuxer fails in many downstream fields: the first one goes into the text)
+		shortReadsOK := true
 		for _, mode := range []int{segEOFData, segOneByte} {
 			c.Add("demux_passes", 1)
 			if fld, det, _ := demuxCheck(&segReader{data: f.data, mode: mode}, cs, bodies); fld != "" {
 				allOK = false
-				c.Violation("segmentation/"+segName[mode]+"/"+fld, fmt.Sprintf("file %s for %s is read back correctly from a reader that returns everything asked for, but not from a %s reader: %s", who, desc, segName[mode], det), cs)
+				if mode == segOneByte {
+					shortReadsOK = false
+				}
+				c.Violation("segmentation/"+segName[mode], fmt.Sprintf("file %s for %s is read back correctly from a reader that returns everything asked for, but not from a %s reader: %s: %s", who, desc, segName[mode], fld, det), cs)
 			}
 		}
-		offs := splitOffsets(sizes, cs.Window)
+		if !shortReadsOK {
+			continue // same root cause as the one-byte reader: short reads
+		}
+		offs := splitOffsets(sizes, cs.Window, cs.AllBelow)
 		c.Add("demux_passes", int64(len(offs)))
 		for _, k := range offs {
 			if fld, det, _ := demuxCheck(&segReader{data: f.data, mode: segSplit, split: k}, cs, bodies); fld != "" {
 				allOK = false
 				cc := *cs
 				cc.Split = k
-				c.Violation("segmentation/two-pieces/"+fld, fmt.Sprintf("file %s for %s (%d bytes) is read back correctly whole, but not when the reader delivers it in two pieces split at offset %d (%s): %s", who, desc, len(f.data), k, flvref.FieldAt(sizes, k), det), &cc)
+				c.Violation("segmentation/two-pieces", fmt.Sprintf("file %s for %s (%d bytes) is read back correctly whole and one byte at a time, but not when the reader delivers it in two pieces split at offset %d (inside %s): %s: %s", who, desc, len(f.data), k, flvref.FieldAt(sizes, k), fld, det), &cc)
 				break
 			}
 		}
@@ -512,7 +504,9 @@ func (e *enum) do(cs *caseT) bool {
 	if e.n%64 == 0 && e.c.Expired() {
 		return false
 	}
+	t0 := time.Now()
 	checkCase(e.c, cs)
+	e.c.Add("worker_us_family_"+cs.Family, int64(time.Since(t0)/time.Microsecond)) // microseconds summed; informational only (budget tuning), never an oracle
 	// samples spread over the enumeration: each shard contributes cases from a different depth
 	if first := int64(1 + e.c.Shard*690); e.n == first || e.n == first+2500 || e.n == first+40000 || e.n == first+150000 {
 		e.c.Sample(cs)
@@ -549,7 +543,7 @@ func run(c *hl.Ctx) {
 	c.Info("alphabet_tag_type", []int{8, 9, 18, 0, 255})
 	c.Info("alphabet_timestamp", alphaTS)
 	c.Info("alphabet_body_size", alphaSizes)
-	c.Info("segmentations", "whole; final bytes together with io.EOF; one byte per read; two pieces split at every offset (files <= 2048 bytes) or at every offset within split_window bytes of a field boundary (longer files)")
+	c.Info("segmentations", "whole; final bytes together with io.EOF; one byte per read; two pieces split at every offset (family full: files <= 2048 bytes; d3-small: files <= 160 bytes) or at every offset within split_window bytes of a field boundary: file start, end of header, end of PreviousTagSize0, tag start, body start, body end, end of PreviousTagSize (longer files)")
 	_, mf := stateDump(mustMuxer())
 	_, df := stateDump(mustDemuxer())
 	c.Info("muxer_fields_besides_transport", mf)
@@ -561,14 +555,14 @@ func run(c *hl.Ctx) {
 	e := &enum{c: c}
 	w := 40
 	if c.Quick() {
-		w = 24
+		w = 16
 	}
 	c.Info("split_window", w)
 	depth := 2
 	rule := "E3 bounded-exhaustive. Family full: 4 header flag combinations x every tag sequence of length 0..2 over tag type {8,9,18,0,255} x timestamp {0,1,0xFFFFFF,0x1000000,0x7FFFFFFF,0x80000000,0xFFFFFFFF} x body size {0,1,255,256,65535,65536} (210 tags). "
 	if c.Thorough() {
 		depth = 3
-		rule += "Family d3-small: every sequence of 3 tags over type x timestamp x size {0,1,255,256} (140^3), flags rotating. Family d3-big: every sequence of 3 tags over type x timestamp {1,0x1000000,0xFFFFFFFF} x all six sizes with at least one body >= 65535, flags rotating, split window 16. Family max-body: body of 2^24-1 bytes alone and next to a second tag. "
+		rule += "Family d3-small: every sequence of 3 tags over type x timestamp x size {0,1,255,256} (140^3), flags rotating, split window 16 above 160 bytes. Family d3-big: every sequence of 3 tags over type {8,9,255} x timestamp {1,0x1000000,0xFFFFFFFF} x all six sizes with at least one body >= 65535, flags rotating, split window 16. Family max-body: body of 2^24-1 bytes alone and next to a second tag. "
 	}
 	rule += "Each case: library muxer output compared byte for byte with the independent writer and parsed by the independent parser; library demuxer run on the library-written and on the reference-written bytes under whole / EOF-with-data / one-byte / every two-piece segmentation, every returned value compared. Non-trivial = distinct case with >= 1 tag whose file was written without error and read back identically under every segmentation."
 	c.Rule(rule)
@@ -578,7 +572,7 @@ func run(c *hl.Ctx) {
 	for d := 0; d <= 2; d++ {
 		ok := seqs(full, d, nil, func(s []tagSpec) bool {
 			for _, fl := range flagCombos {
-				cs := &caseT{Family: "full", Video: fl[0], Audio: fl[1], Tags: append([]tagSpec(nil), s...), Window: w}
+				cs := &caseT{Family: "full", Video: fl[0], Audio: fl[1], Tags: append([]tagSpec(nil), s...), Window: w, AllBelow: 2048}
 				if !e.do(cs) {
 					return false
 				}
@@ -605,7 +599,7 @@ func run(c *hl.Ctx) {
 				if ty == 8 && len(s) > 1 {
 					continue
 				}
-				if !e.do(&caseT{Family: "max-body", Video: fl[0], Audio: fl[1], Tags: s, Window: 40}) {
+				if !e.do(&caseT{Family: "max-body", Video: fl[0], Audio: fl[1], Tags: s, Window: 40, AllBelow: 2048}) {
 					return
 				}
 			}
@@ -618,13 +612,13 @@ func run(c *hl.Ctx) {
 	if !seqs(small, 3, nil, func(s []tagSpec) bool {
 		fl := flagCombos[rot%4]
 		rot++
-		return e.do(&caseT{Family: "d3-small", Video: fl[0], Audio: fl[1], Tags: append([]tagSpec(nil), s...), Window: 0})
+		return e.do(&caseT{Family: "d3-small", Video: fl[0], Audio: fl[1], Tags: append([]tagSpec(nil), s...), Window: 16, AllBelow: 160})
 	}) {
 		return
 	}
 
 	// family d3-big
-	thin := tagAlphabet(alphaTypes, thinTS, alphaSizes)
+	thin := tagAlphabet(thinTypes, thinTS, alphaSizes)
 	hasBig := func(s []tagSpec) bool {
 		for _, t := range s {
 			if t.Size >= 65535 {
@@ -637,7 +631,7 @@ func run(c *hl.Ctx) {
 	seqs(thin, 3, hasBig, func(s []tagSpec) bool {
 		fl := flagCombos[rot%4]
 		rot++
-		return e.do(&caseT{Family: "d3-big", Video: fl[0], Audio: fl[1], Tags: append([]tagSpec(nil), s...), Window: 16})
+		return e.do(&caseT{Family: "d3-big", Video: fl[0], Audio: fl[1], Tags: append([]tagSpec(nil), s...), Window: 16, AllBelow: 2048})
 	})
 }
 
@@ -663,6 +657,9 @@ func replay(c *hl.Ctx, raw json.RawMessage) {
 		panic(err)
 	}
 	cs.Split = 0
+	if cs.AllBelow == 0 {
+		cs.AllBelow = 2048
+	}
 	checkCase(c, &cs)
 }
 
